@@ -19,8 +19,17 @@ OverrideClauses(r) ==
     <<"OutcomeAsSpecified",
         r.outcome = OverrideOutcome(r.fam, Range(r.E)) /\ r.outcomeinst = "ok">>,
     <<"OverrideEqualsInstance",
-        r.outcome = "ok" /\ r.outcomeinst = "ok" => r.same /\ r.shapeok>>
+        r.outcome = "ok" /\ r.outcomeinst = "ok" => r.same /\ r.shapeok>>,
+    (* history leg (ParamRoutingHist!InstancesShareNoState): with the instances of ALL cases    *)
+    (* constructed up front, the case evaluated at two positions of two shuffled case orders    *)
+    (* gives, both times, bit for bit the outcome and numbers of its isolated execution          *)
+    <<"CaseOrderIndependent", r.hsame>>
   >>
+
+(* "hist" records: one TLC-generated history new(f) / eval(i, n) of ParamRoutingHist replayed  *)
+(* on real ScipyDistribution subclasses; ok = every evaluation with a keyword override equals   *)
+(* the instance constructed with the resolved values (computed before the history started)      *)
+HistClauses(r) == << <<"InstancesShareNoState", r.ok /\ r.exc = "" /\ r.nev >= 3>> >>
 
 ----------------------------------------------------------------------------
 (* laws records.  Grid arrays (index i, increasing x): side, Ffin (F finite), Fq, Frq       *)
@@ -78,11 +87,13 @@ LawsSeen == {<<TraceLog[i].fam, TraceLog[i].cl>> : i \in Idx("laws")}
 SummaryClauses(r) ==
   <<
     <<"OverrideCoverage", OverrideSeen = OverrideCases /\ Cardinality(Idx("override")) = Cardinality(OverrideCases)>>,
-    <<"LawsCoverage", LawsSeen = LawCases(r.tier)>>
+    <<"LawsCoverage", LawsSeen = LawCases(r.tier)>>,
+    <<"HistoriesReplayed", Cardinality(Idx("hist")) = r.nhist /\ r.nhist > 0>>
   >>
 
 Clauses(r) == CASE r.kind = "override" -> OverrideClauses(r)
                 [] r.kind = "laws" -> LawsClauses(r)
+                [] r.kind = "hist" -> HistClauses(r)
                 [] r.kind = "summary" -> SummaryClauses(r)
 
 Verdict(r) == Failing(Clauses(r))
